@@ -124,7 +124,7 @@ def hostile_in(filters):
 
 class Soundness(Sub):
     name = "soundness"
-    examples = {"quick": 2400, "thorough": 80000}
+    examples = {"quick": 2400, "thorough": 19200}
     shards = {"quick": 10, "thorough": 16}
     rule = RULE
 
@@ -259,7 +259,7 @@ def benign_twin(f):
 
 class Skeleton(Sub):
     name = "skeleton"
-    examples = {"quick": 1800, "thorough": 60000}
+    examples = {"quick": 1800, "thorough": 14400}
     shards = {"quick": 6, "thorough": 16}
     rule = ("one hostile filter list vs its benign twin; SQL statement token skeleton and LMDB residual "
             "predicate AST (constants blanked) must be equal; non-trivial = a tag name or value contains "
